@@ -196,6 +196,22 @@ func (c *Ctx) c13Values(n int) (lines, impl []string) {
 		}
 		back := bs.VerifConvert(strTag)
 		native("bytes-to-string", hx(s), hx(back.String()), hx(s))
+		// string -> []rune -> string
+		runeSliceTag := sliceTag | tags["int32"]<<8
+		rsl := v.VerifConvert(runeSliceTag)
+		var rl, wr []string
+		for i := 0; i < rsl.Len(); i++ {
+			e, _ := rsl.Get(goat.Int(i))
+			rl = append(rl, fmt.Sprint(e.Int()))
+		}
+		for _, x := range []rune(s) {
+			wr = append(wr, fmt.Sprint(x))
+		}
+		emit("str torunes "+hx(s), strings.Join(rl, ","))
+		native("to-runes", hx(s), strings.Join(rl, ","), strings.Join(wr, ","))
+		rback := rsl.VerifConvert(strTag)
+		emit(strings.TrimRight("str ofrunes "+strings.Join(rl, " "), " "), hx(rback.String()))
+		native("runes-to-string", hx(s), hx(rback.String()), hx(string([]rune(s))))
 		rn := int(Pick(r, c13Runes))
 		switch r.Intn(5) {
 		case 0:
@@ -459,6 +475,10 @@ func c13Program(r *RNG) (GoProg, map[string]bool) {
 			}
 			w("\tprintln(\"back\", string(bs))\n}\n")
 			feat["to-bytes"] = true
+			if r.Bool() {
+				w("if true {\n\trs := []rune(%s)\n\tprintln(\"runes\", len(rs), string(rs) == %s, string(rs))\n\tfor i, x := range rs {\n\t\tprintln(i, x)\n\t}\n}\n", a, a)
+				feat["to-runes"] = true
+			}
 		case 8:
 			w("println(\"digits\", digits(%s))\n", a)
 			feat["byte-arith"] = true
@@ -542,7 +562,7 @@ func (c *Ctx) c13Scripts() error {
 }
 
 func runC13(c *Ctx) error {
-	c.Rep.Rule = "stringT: byte strings of length 0..40 of the classes ascii / valid multi-byte (1..4-byte encodings incl. the boundary code points) / invalid (stray continuation and lead bytes, truncated sequences, surrogates, overlong and out-of-range forms) / random bytes: len, every index and one beyond, four slices (in and out of range), range, all six comparisons and + against a related string (equal, extension, one byte changed, unrelated), []byte round trip and copy semantics, string(rune) for boundary, random and surrogate values; literal: interpreted strings, raw strings and character literals built from plain characters, multi-byte characters, every simple escape, \\x \\ooo \\u \\U escapes and malformed escapes; go-toolchain: programs over three string variables with literal spellings chosen at random; distinct = distinct string / literal / program; non-trivial = longer than 2 bytes / 3 bytes of literal / more than 4 features"
+	c.Rep.Rule = "stringT: byte strings of length 0..40 of the classes ascii / valid multi-byte (1..4-byte encodings incl. the boundary code points) / invalid (stray continuation and lead bytes, truncated sequences, surrogates, overlong and out-of-range forms) / random bytes: len, every index and one beyond, four slices (in and out of range), range, all six comparisons and + against a related string (equal, extension, one byte changed, unrelated), []byte round trip and copy semantics, []rune(s) and string([]rune), string(rune) for boundary, random and surrogate values; literal: interpreted strings, raw strings and character literals built from plain characters, multi-byte characters, every simple escape, \\x \\ooo \\u \\U escapes and malformed escapes; go-toolchain: programs over three string variables with literal spellings chosen at random; distinct = distinct string / literal / program; non-trivial = longer than 2 bytes / 3 bytes of literal / more than 4 features"
 	nv, nl := 400, 1500
 	if c.Thorough() {
 		nv, nl = 60000, 300000
